@@ -68,13 +68,12 @@ func embedsNetConn(t types.Type) bool {
 
 func checkC20(p *Program, tier string) *Result {
 	r := newResult("C20")
-	r.Explanation = "R-PAIR(b): every prometheus.Gauge of the library is enumerated with all its modification sites in the module. Only Inc/Dec are allowed. Bracket gauges: Inc and Dec in one function with Dec on every path from Inc to return and never without it, or one unconditional Inc/Dec in the WaitGroup Add/Done wrappers (paired per goroutine by R-PAIR a). Population gauge (active sessions): every insertion into the session table has exactly one unconditional Inc in the inserting function and is called only on a lookup miss; every deletion decrements exactly once iff the key was present (presence test on the same key); the drain loop at connection close decrements once per remaining entry; no other site touches the gauge. R-PAIR(a) and R-LOOP(a): the wrappers and the deferred table close are paired per connection."
+	r.Explanation = "R-PAIR(b): every prometheus.Gauge of the library is enumerated with all its modification sites in the module. Only Inc/Dec are allowed. Bracket gauges: Inc and Dec in one function with Dec on every path from Inc to return and never without it, or one unconditional Inc/Dec in the WaitGroup Add/Done wrappers (paired per goroutine by R-PAIR a). Population gauge (active sessions): every insertion into the session table has exactly one unconditional Inc in the inserting function and is called only on a lookup miss; every deletion decrements exactly once iff the key was present (presence test on the same key); the drain loop at connection close decrements once per remaining entry; no other site touches the gauge. The wrappers run one Add(1) and one deferred Done per connection goroutine (wherever the Add sits; its position matters to C17 only) and the table close is deferred per connection (R-LOOP a)."
 	rulePairGauges(p, r)
-	rulePairWaitGroup(p, r)
+	ruleGoroutineGaugePaired(p, r)
 	ruleLoop(p, r, "a")
 	r.floor("R-LOOP", 1)
 	r.Trusted = append(r.Trusted, "prometheus Gauge.Inc/Dec are atomic and exact")
 	r.Assumptions = append(r.Assumptions, "process abort is out of scope", "admission refusal returns before the first Inc of the connection gauge (checked as part of the bracket rule: Inc and Dec are in the same function after the refusal return)")
 	return r
 }
-
